@@ -140,6 +140,9 @@ func newVerifier(repo, specDir string) (*verifier, error) {
 	if err := v.prelude.addModule("gentables", v.genTables()); err != nil {
 		return nil, err
 	}
+	if err := v.prelude.addModule("genforest", v.genForest()); err != nil {
+		return nil, err
+	}
 	// contract files: comment-only zz_contracts_verif.go in each repo package
 	for _, p := range pkgs {
 		for i, f := range p.Syntax {
